@@ -165,6 +165,9 @@ package schedulerplugin
 //@   ensures forall i int, r int {result0.RequestIPRange[i][r]} :: 0 <= i && i < len(result0.RequestIPRange) && 0 <= r && r < len(result0.RequestIPRange[i]) ==> nets.wfRange(result0.RequestIPRange[i][r])
 // reusedOK(k): the IP was stored under this key on entry with no uid or with this pod's uid
 //@ pure reusedOK(k string, key string, uid string) bool = old(StoreDom[k]) && old(StoreKey[k]) == key && (old(StoreUid[k]) == "" || old(StoreUid[k]) == uid)
+// heldWithPoolNet: the annotation entry names an IP that is allocated under the key, with the mask,
+// gateway and VLAN of that IP's pool
+//@ pure heldWithPoolNet(ci *floatingip.crdIpam, key string, a constant.IPInfo) bool = a.IP != nil && ipstr(a.IP.IP) in ci.allocatedFIPs && ci.allocatedFIPs[ipstr(a.IP.IP)].Key == key && a.IP.Mask == ci.allocatedFIPs[ipstr(a.IP.IP)].pool.Mask && a.Vlan == ci.allocatedFIPs[ipstr(a.IP.IP)].pool.Vlan && a.Gateway == ci.allocatedFIPs[ipstr(a.IP.IP)].pool.Gateway
 // slotOK: the j-th entry of the (final) query result is there, carries its address twice (entry and
 // annotation part) and lies in the j-th requested range list (math view of the request)
 //@ pure slotsOK(pod *v1.Pod, infos []*floatingip.FloatingIPInfo) bool = (reqN(pod) > 0 ==> len(infos) == reqN(pod)) && forall j int {infos[j]} :: 0 <= j && j < len(infos) ==> infos[j] != nil && infos[j].IPInfo.IP != nil && infos[j].IPInfo.IP.IP == infos[j].FloatingIP.IP && (reqN(pod) > 0 ==> inReq(pod, j, ipstr(infos[j].FloatingIP.IP)))
@@ -176,6 +179,7 @@ package schedulerplugin
 //@   ensures [C03,C04:bind-uid-guard] forall k string :: old(StoreDom[k]) && StoreUid[k] != old(StoreUid[k]) ==> old(StoreUid[k]) == "" && old(StoreKey[k]) == key && StoreUid[k] == pod.UID
 //@   ensures [C10:bind-assigns-only-to-this-node] forall k string :: ProvNode[k] != old(ProvNode[k]) ==> ProvNode[k] == nodeName
 //@   ensures [C08,C13:bind-reports-one-ip-per-range-in-request-order] result1 == nil && reqN(pod) > 0 ==> result0 != nil && len(result0.Common.IPInfos) == reqN(pod) && forall i int {result0.Common.IPInfos[i]} :: 0 <= i && i < reqN(pod) ==> result0.Common.IPInfos[i].IP != nil && inReq(pod, i, ipstr(result0.Common.IPInfos[i].IP.IP))
+//@   ensures [C06,C13:bind-annotation-is-the-allocated-ip-with-its-pool-net] result1 == nil ==> forall i int {result0.Common.IPInfos[i]} :: 0 <= i && i < len(result0.Common.IPInfos) ==> heldWithPoolNet(crd(p), key, result0.Common.IPInfos[i])
 //@   ensures [C08,C13:bind-reports-at-least-one-ip] result1 == nil ==> result0 != nil && len(result0.Common.IPInfos) >= 1
 //@   modifies all
 //@   loop 0,1 invariant forall j int {ipInfos[j]} :: 0 <= j && j < len(ipInfos) && ipInfos[j] != nil ==> infoOfKey(crd(p), ipInfos[j], key) && (reqN(pod) > 0 ==> inReq(pod, j, ipstr(ipInfos[j].FloatingIP.IP)))
@@ -196,6 +200,7 @@ package schedulerplugin
 //@   loop 2,3 invariant forall j int {ipInfos[j]} :: 0 <= j && j < len(ipInfos) && ipInfos[j] != nil ==> ipInfos[j].IPInfo.IP != nil && ipInfos[j].IPInfo.IP.IP == ipInfos[j].FloatingIP.IP && (reqN(pod) > 0 ==> inReq(pod, j, ipstr(ipInfos[j].FloatingIP.IP)))
 //@   loop 2,3 invariant forall j int {ipInfos[j]} {cniArgs.RequestIPRange[j]} :: 0 <= j && j < len(ipInfos) ==> ipInfos[j] != nil
 //@   loop 2,3 invariant slotsOK(pod, ipInfos) && len(ipInfos) >= 1
+//@   loop 2,3 invariant forall j int {ipInfos[j]} :: 0 <= j && j < len(ipInfos) ==> heldWithPoolNet(crd(p), key, ipInfos[j].IPInfo)
 //@   loop 3 invariant ipamOK(p) && len(ret) == idx && forall j int {ret[j]} :: 0 <= j && j < idx ==> ret[j] == ipInfos[j].IPInfo
 //@   loop 3 invariant forall k string :: old(StoreDom[k]) && old(StoreKey[k]) != key ==> storeSameAt(k)
 //@   loop 3 invariant forall k string :: old(StoreDom[k]) ==> StoreDom[k] && StoreKey[k] == old(StoreKey[k])
